@@ -42,7 +42,9 @@ func c14OpenLockstep(r *Run) {
 				cancel()
 				return
 			}
-			loops := strings.Count(goroutineDump(), "(*clientStream).readLoop")
+			// a goroutine that has been created but has not run yet shows only its `go` wrapper frame
+			dump := goroutineDump()
+			loops := strings.Count(dump, "(*clientStream).readLoop") + strings.Count(dump, "client.NewStream.gowrap")
 			begin, end := 0, 0
 			for _, e := range rec.Events() {
 				switch e.Kind {
